@@ -85,9 +85,9 @@ def run_task(task):
         def thunk():
             S = Factory(ctx, I)
             inputs = contract.inputs(S)
-            ctx.input_template = dict(inputs)
+            ctx.input_template = snapshot(dict(inputs))
             ghost = contract.ghost(S, Namespace(inputs)) if contract.ghost else {}
-            ctx.ghost_template = dict(ghost)
+            ctx.ghost_template = snapshot(dict(ghost))
             env = dict(inputs)
             env.update(ghost)
             I.top_env = env
@@ -95,11 +95,13 @@ def run_task(task):
                 v = eval_clause(I, contract, cl, env)
                 ctx.assume(I.truth(v))
             old = Namespace(snapshot(env))
+            I.top_env = dict(env)
+            I.top_env["old"] = old
             args = [inputs[p] for p in params if p in inputs]
             kwargs = {}
             raised = None
             try:
-                result = I.call_function(fn, args, kwargs, top=True)
+                result = I.call_function(fn, args, kwargs, top=True, record_frame=True)
             except PyRaise as e:
                 raised = e
                 result = None
@@ -148,6 +150,14 @@ def run_task(task):
                 except OutOfReach as e:
                     res["out_of_reach"].append("clause %s: %s [path %d]" % (cl.name, e, ctx.path_index))
                     continue
+                if not subs:
+                    # every case of the clause was cut as infeasible: then the path itself must be infeasible
+                    r0 = ctx.check(None, timeout=ctx.budget.prove_ms)[0]
+                    if r0 != "unsat":
+                        from .engine import Obligation
+                        ctx.obligations.append(Obligation(oid, "ensures", "unknown", 0.0, "z3",
+                                                          "no feasible case of the clause on a path not shown infeasible (%s)" % r0,
+                                                          None, ctx.path_index, cl.props or contract.props))
                 for extra, v in subs:
                     try:
                         ctx.oblige(oid, "ensures", B.z_implies(B.z_and(extra), v), tags=cl.props or contract.props,
